@@ -177,7 +177,14 @@ CLAIMED = {
         "on every stream the scanner can deliver (C03_parser_total: POk or PErr, never out of fuel, never an impossible "
         "tree, never past the stopping token; mutual induction with a type-skeleton invariant of the tree); hence "
         "config_read / config_read_file answer success, failure or 'nesting beyond the parser stack' for every byte "
-        "string: no hang, no process exit (C03_read_total, C03_read_file_total). Not provable in a Gallina model and "
+        "string: no hang, no process exit (C03_read_total, C03_read_file_total); and the bounds arithmetic of the three "
+        "places where the library computes capacities itself (MemModel.v / MemFacts.v): the string buffer of strbuf.c (64-byte "
+        "blocks, size_t wrap in the model), the string vector of strvec.c (32-entry chunks + terminator slot) and the "
+        "element vector of every group / array / list (16-entry chunks, realloc may shrink after removals) - for every "
+        "history of appends, releases, adds and in-range removes every index written or moved lies inside what was last "
+        "requested from realloc (C03_mem_safe, with C03_strbuf/strvec/list_invariant, C03_realloc_tracks, the explicit "
+        "no-wrap guard and C03_strbuf_wrap_refuted), tied on every run by harness/memdrv.c (the real functions under ASan, "
+        "realloc observed with --wrap, compared op by op). Not provable in a Gallina model and "
         "therefore only observed, on every run, by the ASan+UBSan+LSan harness with per-input deadline: memory safety of "
         "the C code and of the flex/bison skeletons, leaks, C stack depth; outcome, stdout capture, descriptor count and "
         "a follow-up battery (traverse, look up, write, modify, re-read, clear) are compared with the model on "
@@ -185,7 +192,7 @@ CLAIMED = {
         "of missing files / directories / the file itself / the same file twice / paths with line feeds.",
    note="Beyond 1900 nesting levels the LALR stack limit (YYMAXDEPTH 10000, 5 entries per open group) may be hit; the "
         "model then answers RdNest and only safety is checked. Bytes are 0..255 (bytes_ok) in the totality theorems.",
-   technique="Coq proof (scanner progress / no default rule by certificates; totality of scanner, include machine, parser and reader by induction) + sanitizer correspondence for memory safety (partial)",
+   technique="Coq proof (scanner progress / no default rule by certificates; totality of scanner, include machine, parser and reader by induction; capacity-arithmetic invariants of strbuf / strvec / element vectors over all operation histories) + sanitizer correspondence for memory safety (partial)",
    ref="5 (C03)"),
  "C08": dict(
    text="Coq theorems (Properties_C08.v, closed under the global context) about numeric_token, the function the "
@@ -315,14 +322,21 @@ CLAIMED = {
         "INITIAL and the comment conditions no match looks past a line feed; C10_cut_quote: in STRING/INCLUDE none looks "
         "past a double quote), the append lemma (C10_append) and the independence of token values from the scanner's "
         "bookkeeping fields (C10_bookkeeping_irrelevant, mutual induction over depth / files / fuel); C10_splice_example "
-        "evaluates both sides on a file holding a multi-line string, a comment and a number. NOT proved (compared on "
-        "every run instead: include forests read through the real library and the model vs config_read_string of the "
-        "spliced text, with per-setting provenance checked against the files): directives nested inside c, include "
-        "functions returning several files, a directive followed by more text on its line (there the beginning-of-line "
-        "flag genuinely differs), and the lifting through the parser to equal configurations up to recorded lines/files.",
+        "evaluates both sides on a file holding a multi-line string, a comment and a number. (c) Through the parser and "
+        "for nested includes (SpliceRead.v, SpliceNest.v): the parser's answer and tree depend on the tokens' lines and "
+        "files only through the positions it records (C10_parser_position_irrelevant, mutual induction over the parsing "
+        "functions), hence config_read of the including text and of the spliced text give the same outcome and the same "
+        "configuration - settings, order, names, types, values, formats - up to the recorded source lines/files, which are "
+        "the provenance clause (C10_splice_read); and for include forests of any shape within the depth limit (every "
+        "directive alone on its line, resolving to one existing file whose text is complete) reading the top file equals "
+        "reading the fully flattened text (C10_flatten_tokens, C10_flatten_read; induction on depth budget and forest; "
+        "C10_flatten_example is a two-level forest). NOT proved (compared on every run instead: include forests read "
+        "through the real library and the model vs config_read_string of the spliced text, with per-setting provenance "
+        "checked against the files): include functions returning several files, a directive followed by more text on its "
+        "line (there the beginning-of-line flag genuinely differs), error outcomes under flattening.",
    note="Known finding F13 (KNOWN-FINDING line): a later unopenable path of a multi-path include is reported at the "
         "missing file, not at the directive (C10_later_file_error_refuted).",
-   technique="Coq proof (cut-point certificates on the compiled automaton with soundness lemmas, append lemma and bookkeeping irrelevance by induction, splice theorem; include step unfolded under universally quantified state) + vm_compute instances + forest correspondence for nested / multi-file includes",
+   technique="Coq proof (cut-point certificates on the compiled automaton with soundness lemmas, append lemma and bookkeeping irrelevance by induction, splice theorem; include step unfolded under universally quantified state) ; position irrelevance of the parser and flattening of include forests by induction) + vm_compute instances + forest correspondence for multi-file includes and error cases",
    ref="5 (C10)"),
  "C02": dict(
    text="Proved (Properties_C02.v, closed under the global context), for the parser model on the scanner's located tokens "
